@@ -1226,7 +1226,7 @@ def search(ctx, deep):
     rng = ctx.rng('search')
     nr = ctx.nprng('search')
     quick = ctx.tier == 'quick'
-    ntab = (10 if quick else 30) if deep else 6
+    ntab = (10 if quick else 30) if deep else 4
     stats = {'tables': 0, 'schema_checks': 0, 'ks_tests': 0, 'kendall_exact': 0, 'kendall_value': 0,
              'rank_preservation': 0, 'recovery_experiments': 0, 'failures': 0, 'deep': deep, 'max_ks': 0.0,
              'max_tau_dev': 0.0, 'n_big': N_BIG, 'dkw_eps': dkw_eps(N_BIG), 'tau_eps': hoeffding_tau_eps(N_BIG)}
@@ -1237,7 +1237,7 @@ def search(ctx, deep):
     # awkward scales (non-constant columns that are "close" to constant) and dependence next to a constant column
     rng2 = ctx.rng('search', 'stress')
     nr2 = ctx.nprng('search', 'stress')
-    for t in range((4 if quick else 10) if deep else 2):
+    for t in range((4 if quick else 10) if deep else 1):
         case = scale_stress_case(rng2, nr2, deep)
         stats['scale_stress_tables'] = stats.get('scale_stress_tables', 0) + 1
         oracle_case(ctx, case, stats, schema_ns=[rng2.randint(2, 200)], big=True, light=not deep)
@@ -1246,7 +1246,7 @@ def search(ctx, deep):
     # GaussianKDE-modelled columns at extreme magnitudes / scales: independent inversion of the fitted cdf
     rng4 = ctx.rng('search', 'kde-scales')
     nr4 = ctx.nprng('search', 'kde-scales')
-    for t in range((4 if quick else 10) if deep else 2):
+    for t in range((4 if quick else 10) if deep else 1):
         stats['kde_scale_tables'] = stats.get('kde_scale_tables', 0) + 1
         oracle_case(ctx, kde_scale_case(rng4, nr4), stats, schema_ns=[rng4.randint(100, 400)], big=deep, light=True)
     # input FORM (row index), object STATE (from_dict / save-load / clone / refit) and HISTORY (fit A, sample, fit B)
@@ -1273,13 +1273,13 @@ def search(ctx, deep):
     # instances with options (weighted KDE, bw_method, sample_size, TruncatedGaussian bounds)
     rng6 = ctx.rng('search', 'kde-options')
     nr6 = ctx.nprng('search', 'kde-options')
-    for t in range((4 if quick else 10) if deep else 2):
+    for t in range((4 if quick else 10) if deep else 1):
         stats['kde_option_tables'] = stats.get('kde_option_tables', 0) + 1
         oracle_case(ctx, kde_options_case(rng6, nr6), stats, schema_ns=[rng6.randint(150, 400)], big=deep, light=True)
     # constant columns of every flavour (int64 beyond 2**53, small ints, -0.0, denormal, 1e300): exact reproduction
     rng5 = ctx.rng('search', 'constants')
     nr5 = ctx.nprng('search', 'constants')
-    for t in range((4 if quick else 10) if deep else 2):
+    for t in range((4 if quick else 10) if deep else 1):
         stats['constant_zoo_tables'] = stats.get('constant_zoo_tables', 0) + 1
         oracle_case(ctx, constant_zoo_case(rng5, nr5), stats, schema_ns=[1, rng5.randint(2, 50)], big=False)
     # per-column dicts whose key order / coverage differs from the table's column order: schema only (cheap)
@@ -1689,8 +1689,16 @@ def equivalence_oracle(ctx, case, other_same, other_diff, stats, n=37, forms=Non
             m = make()
             out = seeded_sample(m, S, n)
         except Exception as e:  # noqa
-            report('GaussianMultivariate.sample:restored-model-raises', 'GaussianMultivariate.sample', 'state:' + name,
-                   'raised ' + repr(e)[:300])
+            scalar_bw = any(isinstance(leaf_opts(case, j).get('bw_method'), (int, float))
+                            for j in range(len(case['labels'])))
+            if name == 'save-load' and scalar_bw and 'pickle' in repr(e).lower():
+                # precise class: scipy's gaussian_kde keeps a LOCAL lambda as covariance_factor when bw_method is a
+                # scalar, so a model holding GaussianKDE(bw_method=<number>) cannot be pickled by save()
+                report('GaussianMultivariate.save:kde-scalar-bw-method-not-picklable', 'GaussianMultivariate.save',
+                       'state:' + name, 'raised ' + repr(e)[:300])
+            else:
+                report('GaussianMultivariate.sample:restored-model-raises', 'GaussianMultivariate.sample', 'state:' + name,
+                       'raised ' + repr(e)[:300])
             continue
         if not (label_list_equal(m.columns, case['labels']) and label_list_equal(out.columns, case['labels'])
                 and label_list_equal(m.correlation.columns, case['labels'])):
